@@ -1,4 +1,5 @@
 """C10 — combinational loops are detected exactly, and the reported loop is real."""
+from props import C19
 from props.common_prog import judge_prog
 
 THEOREM_MODULES = ["Hcl.Theorems.C10", "Hcl.Tie.PinsGraph", "Hcl.Theorems.C10Exact", "Hcl.Theorems.C08Spec"]
@@ -45,6 +46,7 @@ def streams(tier, seed):
             {"name": "graph-exhaustive-4", "stream": "graph-exhaustive", "count": 4, "judge": judge},
             {"name": "graph-random", "stream": "graph-random", "count": 3000, "judge": judge},
             {"name": "prog-loop", "stream": "prog-loop", "count": 1500, "judge": judge_loop},
+            {"name": "cli", "stream": "cli", "count": 200, "pygen": C19.pygen, "judge": C19.judge},
         ]
     out = [
         {"name": "prog-loop", "stream": "prog-loop", "count": 60000, "judge": judge_loop},
@@ -57,4 +59,6 @@ def streams(tier, seed):
     for i in range(64):
         out.append({"name": "graph-5-slice-%02d" % i, "stream": "graph-slice", "count": 5,
                     "extra": (i * step, (i + 1) * step), "judge": judge})
+    # what the user sees goes through the command line and the two files: the real binary on accepted, rejected, big, not-UTF-8, bare-CR files, good and malformed images, all options and TIMEOUT forms (as in C19)
+    out.append({"name": "cli", "stream": "cli", "count": 5000, "pygen": C19.pygen, "judge": C19.judge})
     return out
